@@ -813,7 +813,8 @@ def shrink_thread(env, raises, labels, sig):
     cur = list(labels)
     changed = True
     budget = 400
-    while changed and budget > 0:
+    t_end = time.time() + 15
+    while changed and budget > 0 and time.time() < t_end:
         changed = False
         for i in range(len(cur) - 1, -1, -1):
             cand = cur[:i] + cur[i + 1:]
@@ -823,7 +824,7 @@ def shrink_thread(env, raises, labels, sig):
                 cur = cand
                 changed = True
                 break
-            if budget <= 0:
+            if budget <= 0 or time.time() > t_end:
                 break
     return cur
 
